@@ -271,12 +271,14 @@ func WorkerMain(t *testing.T) {
 			if v.Scenario == nil {
 				v.Scenario = sc
 			}
-			if !noShrink {
+			if !noShrink && v.Kind != "hang" { // every candidate that still hangs costs the whole hang bound
 				sig := v.Sig
-				min := Shrink(v.Scenario, sig, 150, func(c *Scenario) bool { return hasSig(t, p, c, sig) })
+				min := Shrink(v.Scenario, sig, 150, func(c *Scenario) bool { Beat(); return hasSig(t, p, c, sig) })
 				v.Scenario = min
 			}
+			Beat()
 			v.Repro = hasSig(t, p, v.Scenario, v.Sig)
+			Beat()
 			v.Scenario.SetInt("gomaxprocs", runtime.GOMAXPROCS(0)) // part of the environment of the run: replay uses it
 			v.Replay = SaveReplay(&v)
 			bySig[v.Sig] = len(res.Violations)
